@@ -158,6 +158,20 @@ def seqVals (valF : Node → R Val) : List Node → R (List Val)
       | .error e => .error e
       | .ok tl => .ok (x :: tl)
 
+/-- elements of a fixed-length tuple: exactly as many values as the tuple has types are taken, left to
+right, the first error wins; a missing value is `invalid length`; values BEHIND the last one taken are
+not looked at (that is the tape path; the reader path then demands the closing brace, see `Fits.tup`) -/
+def tupVals (valF : Ty → Node → R Val) : List Ty → List Node → R (List Val)
+  | [], _ => .ok []
+  | _ :: _, [] => .error .other
+  | t :: r, x :: xs =>
+    match valF t x with
+    | .error e => .error e
+    | .ok v =>
+      match tupVals valF r xs with
+      | .error e => .error e
+      | .ok tl => .ok (v :: tl)
+
 /-- entries of a map in document order: decoded key, value -/
 def mapVals (enc : Enc) (valF : Op → Node → R Val) : List (Key × Op × Node) → List (Val × Val) → R (List (Val × Val))
   | [], acc => .ok acc
@@ -249,6 +263,10 @@ def valueOfN (enc : Enc) : Nat → Ty → Op → Node → R Val
        | .arr [] => (structFinish fs 0 []).map Val.st
        | _ => .error .type)
     | .any => anyVal enc v
+    | .tup ts =>
+      (match v with
+       | .arr vs => (tupVals (fun t x => valueOfN enc f t .eq x) ts (expandNodes vs)).map Val.tup
+       | _ => .error .type)
     | ty =>
       -- a header value read with a scalar target yields the header's name; its body is skipped
       (match v with
@@ -305,6 +323,10 @@ inductive Fits (enc : Enc) : Ty → Node → Prop where
   | leafOnArr {ty : Ty} {vs : List Node} : Ty.isTypedLeaf ty = true → Fits enc ty (.arr vs)
   | mapOnLeaf {t : Ty} {l : Leaf} : Fits enc (.map t) (.leaf l)
   | stOnLeaf {fs : List (Bytes × Ty)} {l : Leaf} : Fits enc (.st fs) (.leaf l)
+  /-- a fixed-length tuple on an array that is NOT LONGER than the tuple (a shorter one: `invalid length`
+  on both paths); a longer array is where the paths differ (`Bad.tupLong`) -/
+  | tup {ts : List Ty} {vs : List Node} : (expandNodes vs).length ≤ ts.length →
+      (∀ t x, (t, x) ∈ List.zip ts (expandNodes vs) → Fits enc t x) → Fits enc (.tup ts) (.arr vs)
 
 /-- `Fits` as the tape path needs it (and therefore the agreement of the two paths).  The flag says
 whether the value is in field position: `Property` captures an operator only there (an array element
@@ -332,6 +354,8 @@ inductive FitsT (enc : Enc) : Bool → Ty → Node → Prop where
   | leafOnArr {b : Bool} {ty : Ty} {vs : List Node} : Ty.isTypedLeaf ty = true → FitsT enc b ty (.arr vs)
   | mapOnLeaf {b : Bool} {t : Ty} {l : Leaf} : FitsT enc b (.map t) (.leaf l)
   | stOnLeaf {b : Bool} {fs : List (Bytes × Ty)} {l : Leaf} : FitsT enc b (.st fs) (.leaf l)
+  | tup {b : Bool} {ts : List Ty} {vs : List Node} : (expandNodes vs).length ≤ ts.length →
+      (∀ t x, (t, x) ∈ List.zip ts (expandNodes vs) → FitsT enc false t x) → FitsT enc b (.tup ts) (.arr vs)
 
 /-- the complement of `FitsT`: the (type, value) pair contains a combination on which the two paths
 are NOT claimed to agree.  Every atomic combination listed here has a witness on which the modelled
@@ -361,6 +385,14 @@ inductive Bad (enc : Enc) : Bool → Ty → Node → Prop where
   | seqElem {b : Bool} {t : Ty} {vs : List Node} {v : Node} : v ∈ expandNodes vs → Bad enc false t v → Bad enc b (.seq t) (.arr vs)
   | mapElem {b : Bool} {t : Ty} {dfs : List (Key × Op × Node)} {k : Key} {o : Op} {v : Node} :
       (k, o, v) ∈ dfs → Bad enc true t v → Bad enc b (.map t) (.obj dfs)
+  /-- a fixed-length tuple on a LONGER array: the tape path takes the prefix, the reader path demands the closing
+  brace; on something that is not an array: as for sequences -/
+  | tupLong {b : Bool} {ts : List Ty} {vs : List Node} : ts.length < (expandNodes vs).length → Bad enc b (.tup ts) (.arr vs)
+  | tupLeaf {b : Bool} {ts : List Ty} {l : Leaf} : Bad enc b (.tup ts) (.leaf l)
+  | tupObj {b : Bool} {ts : List Ty} {dfs : List (Key × Op × Node)} : Bad enc b (.tup ts) (.obj dfs)
+  | tupHdr {b : Bool} {ts : List Ty} {n : Bytes} {body : Node} : Bad enc b (.tup ts) (.hdr n body)
+  | tupElem {b : Bool} {ts : List Ty} {vs : List Node} {t : Ty} {x : Node} :
+      (t, x) ∈ List.zip ts (expandNodes vs) → Bad enc false t x → Bad enc b (.tup ts) (.arr vs)
   | stElem {b : Bool} {fs : List (Bytes × Ty)} {dfs : List (Key × Op × Node)} {k : Key} {o : Op} {v : Node} {i : Nat} {t : Ty} :
       (k, o, v) ∈ dfs → lookupIdx (decode enc k.bytes) fs 0 = some (i, t) → Bad enc true t v → Bad enc b (.st fs) (.obj dfs)
 
